@@ -58,6 +58,35 @@ class NegativeFluentRemover(IdentityDagWalker):
         exp = self.walk(self._env.simplifier.simplify(nnf_exp))
         return exp
 
+    def remove_negative_fluents_from_constraint(self, constraint: FNode) -> FNode:
+        """
+        Removes the negations from the conditions of a trajectory constraint: the temporal
+        operators are kept and each of their arguments is put in NNF and rewritten on its own
+        (the NNF conversion does not look inside a temporal operator).
+        """
+        em = self._env.expression_manager
+        if constraint.is_and():
+            return em.And(
+                [self.remove_negative_fluents_from_constraint(a) for a in constraint.args]
+            )
+        elif constraint.is_forall():
+            return em.Forall(
+                self.remove_negative_fluents_from_constraint(constraint.arg(0)),
+                *constraint.variables(),
+            )
+        args = [self.remove_negative_fluents(a) for a in constraint.args]
+        if constraint.is_always():
+            return em.Always(*args)
+        elif constraint.is_sometime():
+            return em.Sometime(*args)
+        elif constraint.is_at_most_once():
+            return em.AtMostOnce(*args)
+        elif constraint.is_sometime_before():
+            return em.SometimeBefore(*args)
+        elif constraint.is_sometime_after():
+            return em.SometimeAfter(*args)
+        return self.remove_negative_fluents(constraint)
+
     def walk_not(self, expression: FNode, args: List[FNode], **kwargs) -> FNode:
         assert len(args) == 1
         if args[0].is_fluent_exp():
@@ -331,7 +360,7 @@ class NegativeConditionsRemover(engines.engine.Engine, CompilerMixin):
 
         for tc in problem.trajectory_constraints:
             new_problem.add_trajectory_constraint(
-                fluent_remover.remove_negative_fluents(tc)
+                fluent_remover.remove_negative_fluents_from_constraint(tc)
             )
 
         for qm in problem.quality_metrics:
